@@ -636,6 +636,7 @@ def rule_E4(ctx):
         raise AnalysisError(f'only {len(ints)} fixed-length integer dtypes registered')
     for e in ints:
         f = m.func_by_dotted(e['set_fn'])
+        f, _bind = G.through_delegate(m, f)
         if 'length' not in f.params():
             r.fail(f.key, 'length parameter', f"setter of '{e['name']}' takes no length", loc=f.loc())
             continue
